@@ -208,6 +208,11 @@ def run(repo, rep, tier):
     # the opt-out "text mode" is a property of the template object: a shared
     # loader must not answer a request for a markup template with the text
     # template it built earlier for the same file (C14 owns the registry key)
+    # an <?xml ...?> declaration is dissected like a tag (its ${...} values
+    # are attribute values, escaped with their quote): identify() (C03)
+    from . import c03 as _c03
+    L.borrow(repo, rep, "R02.1", "C03", _c03.parser_details,
+             ("identify-ends",))
     from . import c14
     L.borrow(repo, rep, "R02.5", "C14", c14._publish, ("registry-key",))
     L.state_rule(repo, rep)
